@@ -35,6 +35,7 @@ RULE = (
     "__aexit__ call, inside or outside a caller's except handler; root or nested; asyncio and trio (seeded, half fully shuffled). "
     "Sweep cases re-run one program once per probe event i, delivering cancellation (anyio scope; native task.cancel on asyncio) "
     "right after event i, for every i incl. the events of the teardown itself. "
+    "Callbacks are plain functions, partials or (hashable / unhashable) callable objects; @context_teardown functions are also called as methods and with another Context as argument, and their generators may return or raise before the yield or yield twice. "
     "Non-trivial: >= 2 callbacks invoked or a callback raised or cancellation delivered; distinct = distinct interleaving signature "
     "(sequence of (actor, event-kind)) together with program shape."
 )
